@@ -66,6 +66,15 @@ def check(doc, tokens, stats=None):
             out.append({"token": name, "line": ln, "column": col, "why": f"line not in 1..{nlines}"})
             continue
         text = lines[ln - 1]
+        if _has_tab_before(text, len(text) + 1):
+            # outside the claim: column semantics on a line containing a TAB is undocumented
+            if stats is not None:
+                stats["tab_skipped"] = stats.get("tab_skipped", 0) + 1
+            if tok.is_container or tok.is_leaf:
+                if ln < last_block_line:
+                    out.append({"token": name, "line": ln, "column": col, "why": f"block token line decreases (after {last_block_line})"})
+                last_block_line = ln
+            continue
         if not (1 <= col <= len(text) + 1):
             out.append({"token": name, "line": ln, "column": col, "why": "column outside the line"})
             continue
@@ -74,10 +83,6 @@ def check(doc, tokens, stats=None):
             if ln < last_block_line:
                 out.append({"token": name, "line": ln, "column": col, "why": f"block token line decreases (after {last_block_line})"})
             last_block_line = ln
-        if _has_tab_before(text, col + 1):
-            if stats is not None:
-                stats["tab_skipped"] = stats.get("tab_skipped", 0) + 1
-            continue
         ch = text[col - 1] if col <= len(text) else ""
         want = None
         if name in _BLOCK_OPENERS:
